@@ -64,6 +64,8 @@ def run_shard(desc, ctx):
         run_case({'kind': 'big_export', 'seed': [desc['seed'], desc['shard']]}, ctx)
     if desc['shard'] in (1, 6):
         run_case({'kind': 'full_scale', 'seed': [desc['seed'], desc['shard']]}, ctx)
+    if desc['shard'] in (2, 7):
+        run_case({'kind': 'empty_export', 'seed': [desc['seed'], desc['shard']]}, ctx)
 
 
 def run_case(case, ctx):
@@ -75,6 +77,8 @@ def run_case(case, ctx):
             _big_export(case, ctx, d)
         elif case['kind'] == 'full_scale':
             _full_scale(case, ctx, d)
+        elif case['kind'] == 'empty_export':
+            _empty_export(case, ctx, d)
         else:
             _model(case, ctx, d)
     finally:
@@ -105,6 +109,29 @@ def _big_export(case, ctx, d):
         bad = [i for i in range(len(samples)) if got.shape == exp.shape and not np.array_equal(got[i], exp[i])][:5]
         ctx.violation('export_mismatch', case, 'export of %d spikes (%.1f MiB from one chunk): %s; first wrong rows %r' % (
             len(samples), exp[len(few):].nbytes / 2 ** 20, dd, bad), f)
+
+
+def _empty_export(case, ctx, d):
+    """An export of no spike at all: the file must load as an array of the declared shape (0, n, c) - also when the path held an
+    earlier export."""
+    from phylib.io.traces import get_ephys_reader, export_waveforms
+    A = L.unique_cells(50, 3, np.dtype('int16'))
+    rd = get_ephys_reader(A, sample_rate=20. / 600)
+    nsw = 6
+    for reuse in (False, True):
+        path = os.path.join(d, 'e%d.npy' % reuse)
+        if reuse:
+            call(export_waveforms, path, rd, np.array([5, 20, 41]), np.tile(np.arange(3), (3, 1)), n_samples_waveforms=nsw, cache=False, sample2unit=1.)
+        ctx.count(1, key=hkey('empty_export', reuse), nontrivial=True, cell=('array', 'int16', 'empty_export'))
+        r = call(export_waveforms, path, rd, np.zeros(0, dtype=np.int64), np.zeros((0, 3), dtype=np.int64), n_samples_waveforms=nsw, cache=False, sample2unit=1.)
+        f = {'route': 'export', 'empty_export': True}
+        if not r.ok:
+            ctx.violation('route_raised', dict(case, reuse=reuse), 'export of no spike raised %r' % r.exc, dict(f, exc=r.exc_name), tb=r.tb)
+            continue
+        rl = call(np.load, path)
+        if not rl.ok or rl.value.shape != (0, nsw, 3):
+            ctx.violation('export_mismatch' if rl.ok else 'export_unloadable', dict(case, reuse=reuse), 'export of no spike%s: %s' % (
+                ' over an earlier export' if reuse else '', 'shape %r, declared (0, %d, 3)' % (rl.value.shape, nsw) if rl.ok else repr(rl.exc)), f)
 
 
 def _full_scale(case, ctx, d):
@@ -463,5 +490,36 @@ def _model(case, ctx, d):
                 if dd:
                     ctx.violation('window_mismatch', desc, 'get_waveforms (spikes outside the store -> raw data): ' + dd,
                                   dict(fs, fallback=True))
+        # history: the raw recording is archived away (the dataset keeps the exported store, params.py names no raw file any more);
+        # a freshly loaded model still serves the stored windows
+        if case['seed'][2] % 4 == 1:
+            call(m.close)
+            for fn_ in os.listdir(d):
+                if fn_.startswith('raw_t') or fn_ == 'raw.npy' or fn_.startswith('run'):
+                    p_ = os.path.join(d, fn_)
+                    shutil.rmtree(p_) if os.path.isdir(p_) else os.remove(p_)
+            pp_ = os.path.join(d, 'params.py')
+            lines_ = ['dat_path = []\n' if l_.startswith('dat_path') else l_ for l_ in open(pp_).readlines()]
+            open(pp_, 'w').writelines(lines_)
+            r2 = call(load_model, pp_)
+            ctx.cell('model', 'store_without_raw')
+            if not r2.ok:
+                ctx.violation('route_raised', desc, 'load_model of the dataset without its raw file raised %r' % r2.exc, dict(fs, exc=r2.exc_name, no_raw=True), tb=r2.tb)
+                return
+            m = r2.value
+            rr = call(m.get_waveforms, sid[order], qch)
+            out = rr.value if rr.ok else None
+            if out is None or getattr(out, 'shape', (0,))[:2] != (len(order), nsw):
+                ctx.violation('window_mismatch' if rr.ok else 'route_raised', desc, 'store without raw data: get_waveforms gave %r' % (
+                    rr.exc if not rr.ok else (None if out is None else out.shape),), dict(fs, no_raw=True), tb=rr.tb)
+                return
+            for i, o in enumerate(order):
+                for c in sch[o].tolist():
+                    if c == -1:
+                        continue
+                    e = window(A, spec.spike_samples[sid[o]], nsw, [c])[:, 0].astype(np.float64) * factor
+                    if not np.array_equal(out[i, :, c], e):
+                        ctx.violation('window_mismatch', desc, 'store without raw data: spike %d channel %d: %r != %r' % (sid[o], c, out[i, :, c].tolist(), e.tolist()), dict(fs, no_raw=True))
+                        return
     finally:
         call(m.close)
